@@ -91,6 +91,27 @@ def run_c12(ctx):
         return list(ex.map(one, range(4)))
 
 
+def run_c15(ctx):
+    if ctx['tier'] == 'quick':
+        args = ['-histories', '350', '-blocks', '12', '-maxtxs', '6', '-maxwit', '4', '-exhaustive', '4', '-exhwit', '4']
+    else:
+        args = ['-histories', '3000', '-blocks', '16', '-maxtxs', '8', '-maxwit', '7', '-exhaustive', '8', '-exhwit', '7']
+    return [run_olh(ctx, 'ethtrk', args)]
+
+
+def run_c11(ctx):
+    corpus = os.path.join(ctx['root'], 'corpus', 'C11')
+    if ctx['tier'] == 'quick':
+        args = ['-histories', '320', '-blocks', '22', '-maxtxs', '5', '-corpus', corpus]
+    else:
+        args = ['-histories', '5000', '-blocks', '26', '-maxtxs', '6', '-corpus', corpus]
+    return [run_olh(ctx, 'stake', args)]
+
+
+def run_c13(ctx):
+    return [run_olh(ctx, 'rewards', twin_args(ctx, ['-histories', '200', '-blocks', '30', '-maxtxs', '4'], ['-histories', '2000', '-blocks', '40', '-maxtxs', '5']))]
+
+
 SHELL_ASSUME = [
     'handlers are abstracted as arbitrary interaction-tree programs; the side conditions of the generic theorems (AllAimed, NoVset, EnvFree, GasBlind, VolDerived) are discharged for the real code by the regenerated fact tables (T3, `decide`) where a static fact exists, and otherwise exercised dynamically by the twin-replica engines',
     'the shell model is tied to app/controller.go by the `shell` engine: every ABCI call of generated histories (with CheckTx calls and restarts mixed in) is re-run by the Lean model with handlers abstracted to their observed writes; block-cache digests, results, index short-circuits, commit write logs (replayed into IAVL against the real application hash) and Info after restarts must agree',
@@ -200,4 +221,59 @@ PROPS = {
             'the separator at the end of the pending-undelegation range prefix (commit 4adafc1, S17) is the model switch Cfg.sepPrefix = true: the maturity theorems hold for every maturity >= 1; the old prefix is kept as theorems old_prefix_* (exact iff maturity <= 9*height, double payment for 19, collision for 109200) and the real store iterator is compared with the model on colliding heights every run',
         ],
         model_limits='records are decoded values (address, height, integer); the key shapes enter through decPrefix/keyLt (decimal prefix and byte order of <height>_<addr>), tied to the real stores by the piter/rwiter steps; the fee pool, the rewards pool and validator rewards are not part of this model (C02/C13); the model branch poolMinus (pool cannot pay an undelegation) is proved unreachable (undelegate_own_active_always_succeeds) and is therefore not exercised by the correspondence'),
+    'C15': dict(
+        lean_modules=['OLP.Props.C15'], namespaces=['OLP.Props.C15'],
+        required_theorems=['vote_only_own_slot_once', 'nonwitness_vote_does_not_count', 'wrong_index_does_not_count', 'second_vote_refused',
+                           'yes_count_monotone', 'no_count_monotone', 'threshold_is_more_than_two_thirds', 'never_both_decided',
+                           'wf_reachable', 'endBlock_never_panics', 'block_end_moves_no_value', 'cleanup_moves_released', 'cleanup_moves_failed',
+                           'mint_requires_two_thirds_and_locked_amount', 'mint_to_submitter_partial', 'mint_credits_the_reports_locker',
+                           'mint_goes_to_named_locker_not_submitter', 'mint_at_most_once_partial', 'same_external_tx_one_tracker_partial',
+                           'duplicate_eth_lock_rejected', 'duplicate_eth_redeem_rejected', 'erc20_lock_resubmission_mints_twice',
+                           'redeem_debits_before_tracker', 'refund_at_most_once', 'refund_requires_two_thirds_no_and_pays_owner',
+                           'counted_votes_are_witness_reports', 'tracker_comes_from_submission', 'supply_eq_circulation_partial',
+                           'lying_locker_can_double_count_the_supply'],
+        run=run_c15, replay=replay_olh('ethtrk'), level='proof',
+        assumptions=[
+            'the witness list is fixed at genesis and holds no address twice (witness records are keyed by address; nothing adds a witness after InitChain) — hypothesis Cfg.WF of the theorems',
+            'an external (Ethereum) transaction is identified with the tracker name the code derives from it (the trailing 32 bytes of the submitted raw transaction, i.e. the S value of its signature); the signed transaction kept in a tracker is abstracted to the amount the repo\'s parser reads from it, its currency, and whether it is addressed to a listed token contract; the harness decodes those independently (go-ethereum RLP decoder + ABI layout) from every stored record',
+            'block-end transitions: which trackers doEthTransitions visits (names already in the committed tree) and whether a transition function fails on the node\'s job store enter the model as inputs of the endBlock operation; every theorem holds for all such inputs',
+            'partial clauses: mint_to_submitter needs every report to name the submitter (KF-C15-1); mint_at_most_once / same_external_tx_one_tracker need ERC20 submissions to carry fresh external transactions (KF-C15-2); supply_eq_circulation needs that no report names the supply address itself as Locker (same root cause as KF-C15-1); each has a proved counterexample that the engine replays on the implementation in every run (scripted scenarios)',
+        ],
+        model_limits='Validate/fee handling of the five transaction kinds, the Ethereum side (whether the external transaction exists and is final: the witnesses\' off-chain jobs) and the job store are outside the model; negative VoteIndex, a contract-creation payload, a redeem payload without the selector and an ERC20 lock whose transfer receiver is not the ERC contract panic in the handlers (modelled as Res.panic, never sent by this engine: C18); the supply cap is checked at submission only, not at mint (as in the code)'),
+    'C11': dict(
+        lean_modules=['OLP.Props.C11'], namespaces=['OLP.Props.C11'],
+        required_theorems=['frozen_blocks_all_three', 'pending_allegation_blocks_unstake', 'withdraw_needs_bounded',
+                           'bounded_changes_only_by_own_withdraw', 'endBlock_credits_current_height', 'schedule_only_from_unstake',
+                           'unlock_exactly_at_maturity', 'conservation', 'bounded_nonneg', 'withdrawn_le_staked_minus_penalty',
+                           'paid_out_le_paid_in_minus_penalty', 'int64_guard_is_necessary', 'tot_eq_sum_vd_partial',
+                           'eff_eq_sum_vd_partial', 'record_matches_validator_partial', 'only_stake_address_holds_stake_partial',
+                           'restake_after_zero_deletes_record', 'slash_dropped_by_purge_rule'],
+        run=run_c11, replay=replay_olh('stake'), level='proof',
+        assumptions=[
+            'the stake model OLP/Stake/Model.lean (ports of data/delegation/store.go, action/staking/{stake,unstake,withdraw}.go incl. Validate, HandleStake/HandleUnstake, the deletion / purge / UpdateWithdrawReward / verdict part of GetEndBlockUpdate, fetchPostponedUnstakes) is tied to the working tree by the `stake` engine: every CheckTx, DeliverTx, BeginBlock and EndBlock of the generated histories is re-run statelessly by the compiled model from the decoded pre-state records and must give the same result class and post-state records',
+            'which validators the election purges and which validators the allegation tally finds guilty in an EndBlock are inputs of the model (subjects of C10 / C19); the harness reads them off the implementation; likewise the frozen set and the allegation requests visible to CheckRequestExists',
+            'the penalty of a guilty verdict is a big.Float expression; it enters the theorems as a parameter function with 0 <= pen t <= t and is instantiated with round-half-up of 30 % (the options of the generated genesis), compared with the implementation on every verdict',
+            'clause 4 (validator record = sum of locked amounts) is false of the code (KF-C11-1, KF-C11-2): the _partial theorems assume along the run that no successful stake names a validator whose previous-block record has no power or another stake address, that no validator is found guilty and purged in the same EndBlock, and the supply bound staking < 2^63; the maturity theorem assumes the maturity option is never negative and at least 1 during block 1 (governance admits 109200..468000 only)',
+            'genesis Staking entries are modelled as genesisStake transactions of block 1 with amounts in [0, 2^63); a maturing amount loaded from the genesis document (DelegationState.MatureAmounts) is not modelled',
+            'SetMatureAmounts sorts with sort.Slice, which is a stable insertion sort up to 12 entries; the model sorts stably (longer maturing lists of one height with equal addresses are outside the correspondence)',
+        ],
+        model_limits='the withdrawable amount is keyed by delegator only, so the frozen guard of WITHDRAW is by named validator (theorem frozen_guard_is_by_named_validator; counted by the harness, not flagged); the unstake guard against pending allegations cannot see a request created earlier in the same block (State.IterateRange enumerates committed keys only; counted, not part of the property as stated); fee handling and every other balance movement are environment (Tx.credit)'),
+    'C13': dict(
+        lean_modules=['OLP.Props.C13'], namespaces=['OLP.Props.C13'],
+        required_theorems=['consumed_le_pulled', 'credited_le_consumed', 'credited_le_pulled', 'absent_not_credited', 'consumed_eq_recorded',
+                           'block_keeps_nonneg', 'chunk_matures_once', 'withdraw_le_matured', 'validator_withdraw_le_matured',
+                           'withdraw_never_raises_matured_partial', 'wrapped_withdraw_raises_matured',
+                           'pulled_le_year_left', 'burnout_capped_by_pool', 'till_changes_only_at_cycle_end',
+                           'calc_cache_restart_invariant_partial', 'restart_patterns_agree_partial',
+                           'stale_cache_after_error_counterexample', 'sticky_burnout_counterexample',
+                           'pulled_le_year_left_by_till_partial', 'pulled_le_year_left_at_cycle_start_partial'],
+        run=run_c13, replay=replay_olh('rewards'), level='proof',
+        assumptions=[
+            'the one float expression of the calculator, int64(float64(secsToClose*cycle)/float64(secsPerCycle)), is a parameter `fq` of the model; the theorems use only: fq a b >= 0 for a >= 0, b > 0 (FqNonneg); the driver instantiates it with IEEE-754 double division truncated as Go/amd64 does, and the correspondence run compares every pulled amount with the implementation',
+            'block times are whole seconds (as the harness generates them), so Duration.Seconds() truncated to int64 is the exact difference; Tendermint block times strictly increase (EnvOK: the last complete cycle took a positive number of seconds)',
+            'LastCommitInfo lists every validator once with non-negative power (VotesOK); the active network delegations are non-negative and covered by the balance of the delegation pool (ActiveOK = C12 invariant; its necessity is proved by pool_below_active_breaks_bound and the credits themselves are monitored on the implementation every block)',
+            'restart independence and the per-cycle schedule bound are proved under the hypotheses the code forces (no `Year rewards burned out unexpectedly` error on the always-recomputing node, burnout permanent); outside them the model exhibits the violations (proved counterexamples) and the harness reproduces them on the implementation (known findings KF-C13-1..3)',
+            'reward options never change after genesis (governance validation rejects any change: ValidateRewards requires DeepEqual); int64 overflow of heights / seconds is out of scope',
+        ],
+        model_limits='handleBlockRewards is modelled from PullRewards to ConsumeRewards on decoded records (early error returns for a missing currency / undecodable power / missing pool list are not reachable from a valid genesis and not modelled); the calculator cache is private to the implementation, the driver threads its own copy per replica; the amount the implementation pulls is read from the application\'s own calculator object (cache included) by a PullRewards call on a throw-away State over the committed tree immediately before BeginBlock (same height, same records, so BeginBlock\'s own call returns the same amount and the cache is left as BeginBlock would leave it; an unprobed, never-restarted third replica checks this in every 5th history); chunk-matures-once is proved for chains without interval records (the running chain never writes one), interval records from an exported-state genesis are covered by the correspondence only'),
 }
